@@ -46,6 +46,7 @@ struct CDynClass {
         gen::KeyMap<K> km;
         if (g.prop == "C20") { // create(pairs, n) must return NULL for an unsorted array, at every position (small) / sampled (large)
             p.set("mode", "c-unsorted");
+            { Rng m = sim::stream(g.run_seed, "cmode"); if (m.chance(300)) p.set("c_reserved", 1); } // the reserved mapped value instead of an unsorted pair
             size_t n = cfg.chance(800) ? (size_t) cfg.range(2, 64) : (size_t) cfg.range(65, 3000);
             uint64_t c = work.range(0, km.U / 2);
             for (size_t i = 0; i < n; ++i) { p.item('P', key_text(km.at(c)) + " " + std::to_string(i + 1)); if (!work.chance(150)) { uint64_t gap = 1 + work.magnitude(12); c = (km.U - c < gap) ? km.U : c + gap; } }
@@ -121,8 +122,24 @@ struct CDynClass {
             std::vector<size_t> positions;
             if (p.get("positions", "all") == "all") for (size_t i = 1; i < n; ++i) positions.push_back(i);
             else for (int t = 0; t < 40; ++t) positions.push_back((size_t) r.range(1, n - 1));
+            const bool c_reserved = p.get_u("c_reserved", 0) != 0;
+            if (c_reserved) { // strictly increasing keys so that the reserved value is the only defect of the array
+                std::vector<typename C::pair_t> dist;
+                for (auto &kv : bulk) if (dist.empty() || dist.back().first < kv.first) dist.push_back(kv);
+                bulk.swap(dist); n = bulk.size();
+                if (n < 2) { out.trace_hash = tr.h; return out; }
+                positions.erase(std::remove_if(positions.begin(), positions.end(), [&](size_t i) { return i >= n; }), positions.end());
+            }
             for (size_t i : positions) {
                 auto bad = bulk;
+                if (c_reserved) {
+                    bad[i].second = std::numeric_limits<K>::max(); // the tombstone value of the wrapper's mapped type
+                    auto hh = C::create(bad.data(), bad.size());
+                    st.inc("fault.invalid_op"); st.inc("fault_positions_enumerated");
+                    tr.add(hh ? 1 : 0);
+                    if (hh) { C::destroy(hh); out.fail("c-reserved-not-null", "create() returned a container for an array holding the reserved mapped value at position " + std::to_string(i) + " of " + std::to_string(n)); break; }
+                    continue;
+                }
                 if (bad[i - 1].first == std::numeric_limits<K>::min()) continue;
                 bad[i].first = K(bad[i - 1].first - 1);
                 auto hh = C::create(bad.data(), bad.size());
@@ -254,7 +271,7 @@ struct DynEnumClass {
         p.set("cfg", ce.name);
         p.set("procs", 1); p.set("maxthreads", 1);
         if (cfg.chance(150)) { p.set("mode", "bases"); return p; }
-        p.set("mode", "bulk-unsorted");
+        p.set("mode", VM::has_reserved && cfg.chance(300) ? "bulk-reserved" : "bulk-unsorted");
         size_t n = cfg.chance(800) ? (size_t) cfg.range(2, 64) : (size_t) cfg.range(65, 3000);
         gen::KeyMap<K> km;
         uint64_t cur = work.range(0, km.U / 2);
@@ -302,13 +319,47 @@ struct DynEnumClass {
         std::vector<size_t> positions;
         if (p.get("positions", "all") == "all") for (size_t i = 1; i < n; ++i) positions.push_back(i);
         else for (int t = 0; t < 40; ++t) positions.push_back((size_t) r.range(1, n - 1));
+        struct PodPair { K first; V second; };
+        // the range is handed over through vector iterators, raw pointers to std::pair, or raw pointers to a plain struct
+        auto construct = [&](const std::vector<std::pair<K, V>> &v, size_t kind) {
+            if (kind % 3 == 1) { const std::pair<K, V> *a = v.data(); Dyn d(a, a + v.size(), 8, 0, 1); (void) d; }
+            else if (kind % 3 == 2) { std::vector<PodPair> pod; for (auto &kv : v) pod.push_back(PodPair{kv.first, kv.second}); const PodPair *a = pod.data(); Dyn d(a, a + pod.size(), 8, 0, 1); (void) d; }
+            else { Dyn d(v.begin(), v.end(), 8, 0, 1); (void) d; }
+        };
+        if (p.get("mode") == "bulk-reserved") {
+            if constexpr (VM::has_reserved) {
+                // strictly increasing keys, the reserved mapped value at position i: every entry point must reject it
+                std::vector<std::pair<K, V>> distinct;
+                for (auto &kv : bulk) if (distinct.empty() || distinct.back().first < kv.first) distinct.push_back(kv);
+                if (p.get("positions", "all") == "all") { positions.clear(); for (size_t i = 0; i < distinct.size(); ++i) positions.push_back(i); }
+                for (size_t i : positions) {
+                    if (i >= distinct.size()) continue;
+                    for (size_t kind = 0; kind < 3; ++kind) {
+                        auto bad = distinct;
+                        bad[i].second = VM::reserved();
+                        std::string got = "no exception";
+                        try { construct(bad, kind); }
+                        catch (const std::invalid_argument &) { got = "invalid_argument"; }
+                        catch (const std::exception &e) { got = std::string("other exception: ") + e.what(); }
+                        tr.add_str(got);
+                        st.inc("fault.invalid_op"); st.inc("fault_positions_enumerated");
+                        static const char *kn[] = {"vector iterators", "pointers to std::pair", "pointers to a plain {first, second} struct"};
+                        if (got != "invalid_argument") { out.fail("reserved-value-not-rejected", std::string("bulk-load through ") + kn[kind] + " with the reserved mapped value at position " + std::to_string(i) + " of " + std::to_string(distinct.size()) + ": " + got + " instead of std::invalid_argument"); break; }
+                    }
+                    if (!out.ok) break;
+                }
+            }
+            st.mark("nontrivial", sim::mix(sim::hash_str(ce.name.c_str()), n * 3 + 1));
+            out.trace_hash = tr.h;
+            return out;
+        }
         for (size_t i : positions) {
             // make pair i smaller than pair i-1 (an out-of-order pair at position i); skip if impossible
             auto bad = bulk;
             if (bad[i - 1].first == std::numeric_limits<K>::min()) continue;
             bad[i].first = K(bad[i - 1].first - 1);
             std::string got = "no exception";
-            try { Dyn d(bad.begin(), bad.end(), 8, 0, 1); (void) d; }
+            try { construct(bad, i); }
             catch (const std::invalid_argument &) { got = "invalid_argument"; }
             catch (const std::exception &e) { got = std::string("other exception: ") + e.what(); }
             tr.add_str(got);
